@@ -1593,7 +1593,7 @@ class Interp:
 
         def emit(e):
             k = self.eval(node.key, e)
-            if is_sym(k):
+            if is_sym(k) and not isinstance(k, SObj):
                 raise Undecided("symbolic key in dict comprehension")
             out[k] = self.eval(node.value, e)
         self._comp(node.generators, env, emit)
@@ -2589,7 +2589,18 @@ def _m_zip_longest(interp, *its, fillvalue=None):
 
 import itertools as _itertools
 
+def _m_dict_fromkeys(interp, keys, value=None):
+    """dict.fromkeys(iterable, value): keys may be heap stand-ins (hashed by identity, like the real objects)"""
+    out = {}
+    for k in interp.iterate(keys):
+        if is_sym(k) and not isinstance(k, SObj):
+            raise Undecided("symbolic scalar key in dict.fromkeys")
+        out[k] = value
+    return out
+
+
 DEFAULT_MODELS = {
+    dict.fromkeys: _m_dict_fromkeys,
     _itertools.product: _m_product,
     iter: _m_iter,
     object.__setattr__: _m_object_setattr,
